@@ -61,6 +61,8 @@ func c12Scenarios(thorough bool) []*c12Scenario {
 		{Name: "update[1,3]||read[2,4]", Clients: [][]*Stmt{{up("u1", 1, 3)}, {rd(2, 4)}}},
 		{Name: "update[1,3]||update[2,4]", Clients: [][]*Stmt{{up("u1", 1, 3)}, {up("u2", 2, 4)}}},
 		{Name: "update;read||update", Clients: [][]*Stmt{{up("u1", 1, 2), rd(1, 4)}, {up("u2", 2, 3)}}},
+		// a statement that fails (unknown table) next to good ones: each caller gets the answer to ITS statement
+		{Name: "unknown-table||update||read", Clients: [][]*Stmt{{{Kind: "select", Table: "nosuch", Cols: []string{"k"}, Where: Leaf{"k", "=", k(1)}}}, {up("u1", 1, 2)}, {rd(1, 2)}}},
 	}
 	// request-channel flood: capacity+2 clients with one cheap read each
 	flood := func(n int) [][]*Stmt {
@@ -179,6 +181,12 @@ func (sc *c12Scenario) build(bound int) *core.Scenario {
 						if !call.done || call.returned != 1 {
 							return mk("call-not-answered-exactly-once", fmt.Sprintf("client%d %s: done=%v results delivered=%d", ci, call.stmt.SQL(), call.done, call.returned)), "not-answered"
 						}
+						if call.stmt.Table == "nosuch" {
+							if call.err == "" || len(call.rows) != 0 {
+								return mk("result-of-another-statement", fmt.Sprintf("client%d %s (unknown table) returned err=%q rows=%s", ci, call.stmt.SQL(), call.err, call.rows.Short())), "foreign-result"
+							}
+							continue
+						}
 						if call.err != "" {
 							return mk("call-returned-error", fmt.Sprintf("client%d %s: %s", ci, call.stmt.SQL(), call.err)), "error"
 						}
@@ -270,6 +278,10 @@ func c12Label(calls [][]*c12Call) string {
 	var parts []string
 	for ci := range calls {
 		for _, call := range calls[ci] {
+			if call.stmt.Table == "nosuch" {
+				parts = append(parts, fmt.Sprintf("c%d:error", ci))
+				continue
+			}
 			parts = append(parts, fmt.Sprintf("c%d:%s", ci, strings.ReplaceAll(call.rows.Canon(), "\n", "/")))
 		}
 	}
@@ -290,7 +302,18 @@ func ifRows(res [][]interface{}) Rows {
 
 // c12Linearizable: a total order of all calls that keeps program order, keeps real-time order
 // (ret(X) < inv(Y) => X before Y), reproduces every read and yields the final table.
-func c12Linearizable(calls [][]*c12Call, final string) bool {
+func c12Linearizable(callsAll [][]*c12Call, final string) bool {
+	// calls on the unknown table are answered with an error and take no part in the order
+	var calls [][]*c12Call
+	for _, cl := range callsAll {
+		var keep []*c12Call
+		for _, c := range cl {
+			if c.stmt.Table != "nosuch" {
+				keep = append(keep, c)
+			}
+		}
+		calls = append(calls, keep)
+	}
 	pos := make([]int, len(calls))
 	var all []*c12Call
 	for _, cl := range calls {
